@@ -2,6 +2,7 @@
 """C10 - reference events deliver canonical coordinates, once, in evaluation order
 
 case kinds (see RULE): `tree` - one formula on a fresh parser: (a) fixed list and seeded trees, (c) grid of range texts;
+with key `debug` the fresh parser is constructed with debug=True and what it prints goes to a sink;
 `session` - (d) step k of several formulas evaluated one after another on one parser; `reent` - (e) a host whose callbacks
 evaluate further formulas on the same parser; `setter` - (b) a plan of setter calls for one reference"""
 import copy
@@ -38,7 +39,11 @@ RULE = ('(a) kind `tree`: 45 fixed formulas (reversed / one-cell / $-mixed range
         'the middle, `;`-separated and two-row `a,b;c,d` argument lists) and, 2 of 8 draws of the custom share (ID 2, ARGS 4), the '
         'host functions Vat (= its first argument, as ID) and net_of (= its argument list, as ARGS; omitted slot in the middle as '
         'for ARGS, no two-row list) registered under names with lower-case letters and written that way, a raising function BOOM, an unknown name (NOSUCH, '
-        'XYZZY); each rendered minimally or (30%) fully parenthesised, 30% with white space at token boundaries. Listeners '
+        'XYZZY); each rendered minimally or (30%) fully parenthesised, 30% with white space at token boundaries. 12% of the seeded trees are followed by a copy of the same case '
+        'with key `debug` (about 180 of the 1500 at quick scale 1) and 6 fixed formulas carry it (SUM(A1:A3)*B1+K7()*nosuchvar, B1+NOSUCH(A1,A1:A3), '
+        'A1+#N/A, A1+B2*C3, BOOM(A1)+B1, va+A1): the case runs on hotxlfp.Parser(debug=True) with the same registrations and '
+        'listeners, stdout and stderr redirected to an io.StringIO for the parse; oracle, model request and comparison are those of '
+        'the case without the key - events and record are what they are without debug. Listeners '
         'on all four events of a fresh hotxlfp.Parser record every field (call arguments as deep copies) in one ordered '
         'log; AHEAD of them every parser that evaluates a case (all kinds (a)-(e), the reference runs of (e) included) gets, for '
         'each of the four events, a one-shot tracer registered with `once` and a listener that unsubscribes itself with '
@@ -59,7 +64,7 @@ RULE = ('(a) kind `tree`: 45 fixed formulas (reversed / one-cell / $-mixed range
         'flags and labels that recompose from their own coordinates; a variable event carries the (first) name, a call '
         'event the name and, for a flat (not two-row) argument list, as many arguments as slots. Compared with the model: '
         'record (4 ulps or 1e-9 relative) and full event list of `eval` (all fields incl. the part labels; call arguments '
-        'within 4 ulps, unmodelled ones accepted); where the model has no opinion on the result (unmodelled builtin) its '
+        'like the record within 4 ulps or 1e-9 relative, absolute below 1; unmodelled ones accepted); where the model has no opinion on the result (unmodelled builtin) its '
         'events must be a prefix of the log; no comparison when a logical reaches an aggregate other than SUM (here MAX). '
         '(b) kind `setter`, 700 / 6000 x scale: 0..3 listeners each calling the setter 0..3 times with values from a pool '
         'of 17 {None, 0, 0.0, False, "", "x", 5, [], [1], a date, 3 host objects with an equality of their own: equal to '
@@ -110,9 +115,10 @@ RULE = ('(a) kind `tree`: 45 fixed formulas (reversed / one-cell / $-mixed range
         'environment where the inner results are constants. Non-trivial = at least two events raised (for a later session '
         'step: one), or at least one setter call planned; for (e) at least two depth-0 events and at least one inner '
         'evaluation; every case counts once, no time or step budget. When a proof or the correspondence broke, the whole '
-        'quick family is regenerated with scale 6 (9000 trees, all 64 grid pairs, 2100 sessions, 2400 re-entrant attempts, '
+        'quick family is regenerated with scale 6 (9000 trees + the debug copies of 12% of them, all 64 grid pairs, 2100 sessions, 2400 re-entrant attempts, '
         '4200 setter plans) and judged by the oracle alone, up to the first failure; a failing generated tree / session / '
-        'outer formula is replaced by a smaller failing one (sub-tree; the step alone or after 1..2 of its predecessors).')
+        'outer formula is replaced by a smaller failing one (sub-tree; the step alone or after 1..2 of its predecessors; the sub-trees '
+        'of a `debug` tree are tried on a parser without debug=True - when none fails there the case is reported as it is).')
 TRUSTED = ['ply evaluates semantic actions bottom-up, left to right (the model evaluates the tree in post-order); tied by this '
            'correspondence check, not proved',
            'the tree the model parser builds for the formula text is the generating tree (C04/C05 correspondence); for fixed '
@@ -135,13 +141,17 @@ TRUSTED = ['ply evaluates semantic actions bottom-up, left to right (the model e
            'tests/test_parser.py); both runs use the same deterministic listeners',
            'the values the listeners hand over (numbers, the text "abc" for one cell label in 20, lists of numbers for '
            'ranges) are functions of the upper-cased label(s) alone (zlib.crc32) and reach the '
-           'model as its cell / range environment (for fixed texts through a token scan of the text); float results are '
-           'accepted within 4 ulps or 1e-9 relative, float call arguments within 4 ulps; values the model does not model '
+           'model as its cell / range environment (for fixed texts through a token scan of the text); float results and the float '
+           'arguments of function events are accepted within 4 ulps or 1e-9 relative (1e-9 * max(1, |model value|): the double arithmetic '
+           'of the code against the model\'s exact rationals - a difference of nearly equal numbers loses more than a few ulps); values the model does not model '
            '(host objects, results of unmodelled builtins) are accepted as such',
            'harness mechanisms: copy.deepcopy for the recorded call arguments and the handed-over pool values (the host '
            'objects with their own equality copy to themselves and are looked at by identity only); the steps of a session '
            'are run once, in order, on one parser and each per-step case reads its slice of that log; a re-entrant host '
-           'that nests beyond depth 12 is stopped by the harness (RuntimeError)']
+           'that nests beyond depth 12 is stopped by the harness (RuntimeError)',
+           'key debug: what a parser constructed with debug=True prints goes to sys.stdout / sys.stderr only '
+           '(contextlib.redirect_stdout / redirect_stderr into io.StringIO around the one parse); the model has no debug flag - the '
+           'request of a debug case is that of the same formula without it']
 ASSUMPTIONS = ['labels with a zero row or leading zeros (A0, A01) are outside the statement\'s label domain: order, multiplicity '
                'and the upper-cased cell label are still checked for them, coordinates (and a range with such a corner) only '
                'against the model; columns beyond XFD and rows beyond 1048576 are inside it',
@@ -171,6 +181,8 @@ ASSUMPTIONS = ['labels with a zero row or leading zeros (A0, A01) are outside th
                'the statement quantifies over formulas, not over parser histories: it is read as holding for every formula '
                'evaluated on a parser that has evaluated other formulas before, and for a formula whose host callbacks '
                'evaluate other formulas on the same parser meanwhile',
+               'the statement holds whatever the debug setting the parser was constructed with: events, their order and fields, '
+               'and the record of a parser constructed with debug=True are those of one constructed without (what it prints is no part of either)',
                'for re-entrant hosts the exemption for references after a point of failure covers only failures of the '
                'formula itself: whether one occurs is decided by the same formula evaluated with the inner results as '
                'constants; events of inner evaluations belong to the inner formulas (nesting-depth attribution)']
